@@ -121,6 +121,14 @@ add('C28', 'exploration',
     'canonical events and exception type+code must be identical; clock/random/socket entry points raise while a call runs.',
     'Exception message text is not compared.')
 
+add('C27', 'exploration',
+    'runtime monitoring: structural invariants on live containers at quiescent points under long hostile frame sequences',
+    'Twelve hostile patterns of 2N frames per case: after every frame that opens no stream the tracked-stream count must not '
+    'grow; closed-stream memory <= its cap (cap actually reached: > 2^16 streams churned); blocks of HEADERS+n CONTINUATION '
+    'frames judged at the limit read from the code at run time; decoded header lists at acknowledged MHLS -1/0/+1 (MHLS set alone '
+    'and together with other settings) must be delivered / refused with ENHANCE_YOUR_CALM; census of every peer-fed container at N and 2N.',
+    'Reads streams, _closed_streams, incoming_buffer, HPACK tables and settings deques through getattr (read-only); a removed attribute makes that probe unavailable, not a verdict.')
+
 NOT_BUILT_REASON = 'check not built yet in this session (planned in DESIGN.md; no verdict claimed)'
 
 def main():
